@@ -105,6 +105,25 @@ func C04(c *core.Ctx) {
 	addFn("fw/fw", "", "HashNameToAllPrefixFwThreads")
 	addFn("std/engine/face", "StreamFace", "Run")
 
+	// helpers split off a function of the surface belong to it
+	{
+		have := map[*ssa.Function]bool{}
+		for _, f := range surface {
+			have[f] = true
+		}
+		for _, f := range append([]*ssa.Function{}, surface...) {
+			if strings.HasSuffix(p.File(f.Pos()), "zz_generated.go") {
+				continue
+			}
+			for _, g := range core.Reach(f) {
+				if !have[g] && g.Blocks != nil {
+					have[g] = true
+					surface = append(surface, g)
+				}
+			}
+		}
+	}
+
 	// ---- R4.1 tainted sinks
 	nSinks, nOK := 0, 0
 	perKind := map[string]int{}
